@@ -78,26 +78,26 @@ def generate():
         D(k + "_BUCKET_BITS", const_fn(imp, "BUCKET_BITS", k))
         D(k + "_BUCKET_SWEEP", const_fn(imp, "BUCKET_SWEEP", k))
         hb = fnb(imp, "HashBytes", k)
-        m = re.search(r"\(BROTLI_UNALIGNED_LOAD64\(data\)\s*<<\s*\(([^;]*?)\)\)\s*\.wrapping_mul\(kHashMul64\)\s*;", hb, re.S)
+        m = re.search(r"\(BROTLI_UNALIGNED_LOAD64\(\w+\)\s*<<\s*\(([^;]*?)\)\)\s*\.wrapping_mul\(kHashMul64\)\s*;", hb, re.S)
         if not m:
             raise G.GenError(k + "::HashBytes: `(LOAD64(data) << (..)).wrapping_mul(kHashMul64)` not found")
         D(k + "_HASH_SHL", const_expr(m.group(1), k + "::HashBytes shl"))
-        m = re.search(r"\(h\s*>>\s*\(([^;]*?)\)\)\s*as\s+u32", hb, re.S)
+        m = re.search(r"\(\w+\s*>>\s*\(([^;]*?)\)\)\s*as\s+u32", hb, re.S)
         if not m:
             raise G.GenError(k + "::HashBytes: `(h >> (..)) as u32` not found")
         D(k + "_HASH_SHR", const_expr(m.group(1), k + "::HashBytes shr"))
     # BasicHasher: Store / StoreRangeOptBasic shape constants
     imp = impl_body(t, "AnyHasher", "BasicHasher", "mod.rs")
     st = fnb(imp, "Store", "BasicHasher")
-    if not re.search(r"\(ix\s*>>\s*3\)\.wrapping_rem\(self\.buckets_\.BUCKET_SWEEP\(\)\s*as\s*usize\)", st):
-        raise G.GenError("BasicHasher::Store: `(ix >> 3).wrapping_rem(BUCKET_SWEEP)` not found")
-    D("BASIC_SWEEP_SHIFT", 3)
+    D("BASIC_SWEEP_SHIFT", G.nums_in(st, r"\(\w+\s*>>\s*" + G.LIT + r"\)\.wrapping_rem\(self\.buckets_\.BUCKET_SWEEP\(\)\s*as\s*usize\)",
+                                     "BasicHasher::Store `(ix >> 3).wrapping_rem(BUCKET_SWEEP)`", 1)[0])
     ob = fnb(t, "StoreRangeOptBasic", "mod.rs")
-    D("OPT_BASIC_LOOKAHEAD", G.nums_in(ob, r"let\s+lookahead\s*=\s*" + G.LIT + r"\s*;", "StoreRangeOptBasic lookahead", 1)[0])
-    if not re.search(r"ix_end\s*>=\s*ix_start\s*\+\s*lookahead\s*\*\s*2", ob):
-        raise G.GenError("StoreRangeOptBasic: entry condition changed")
-    D("OPT_BASIC_CHUNK", G.nums_in(ob, r"\(ix_end\s*-\s*ix_start\)\s*/\s*" + G.LIT, "StoreRangeOptBasic chunk", 1)[0])
-    D("OPT_BASIC_WORD", G.nums_in(ob, r"split_at\(i\)\.1\.split_at\(" + G.LIT + r"\)", "StoreRangeOptBasic word", 1)[0])
+    m = re.search(r"let\s+(\w+)\s*=\s*" + G.LIT + r"\s*;\s*if\s+\w+\s*>=\s*\w+\s*\+\s*(\w+)\s*\*\s*2\s*\{", ob)
+    if not m or m.group(1) != m.group(3):
+        raise G.GenError("StoreRangeOptBasic: `let lookahead = N; if ix_end >= ix_start + lookahead * 2` not found")
+    D("OPT_BASIC_LOOKAHEAD", G.parse_num(m.group(2), "StoreRangeOptBasic lookahead"))
+    D("OPT_BASIC_CHUNK", G.nums_in(ob, r"let\s+\w+\s*=\s*\(\w+\s*-\s*\w+\)\s*/\s*" + G.LIT, "StoreRangeOptBasic chunk", 1)[0])
+    D("OPT_BASIC_WORD", G.nums_in(ob, r"split_at\(\w+\)\.1\.split_at\(" + G.LIT + r"\)", "StoreRangeOptBasic word", 1)[0])
     # AdvHasher specialisations
     for k, ty in (("HQ5", "HQ5Sub"), ("HQ7", "HQ7Sub")):
         imp = impl_body(t, "AdvHashSpecialization", ty, "mod.rs")
@@ -110,12 +110,12 @@ def generate():
     for f in ("HashTypeLength", "StoreLookahead"):
         D("H6_%s" % f, const_fn(imp, f, "H6Sub"))
     ob = fnb(t, "StoreRangeOptBatch", "mod.rs")
-    if not re.search(r"ix_end\s*>=\s*ix_start\s*\+\s*lookahead\s*\*\s*2\s*&&\s*lookahead\s*==\s*4", ob):
+    if not re.search(r"if\s+\w+\s*>=\s*\w+\s*\+\s*(\w+)\s*\*\s*2\s*&&\s*\1\s*==\s*4\s*\{", ob):
         raise G.GenError("StoreRangeOptBatch: entry condition changed")
-    D("OPT_BATCH_CHUNK", G.nums_in(ob, r"\(ix_end\s*-\s*ix_start\)\s*/\s*" + G.LIT, "StoreRangeOptBatch chunk", 1)[0])
+    D("OPT_BATCH_CHUNK", G.nums_in(ob, r"let\s+\w+\s*=\s*\(\w+\s*-\s*\w+\)\s*/\s*" + G.LIT, "StoreRangeOptBatch chunk", 1)[0])
     mf = fnb(t, "BulkStoreRangeOptMemFetch", "mod.rs")
     D("MEMFETCH_REG_SIZE", G.nums_in(mf, r"const\s+REG_SIZE\s*:\s*usize\s*=\s*" + G.LIT, "MemFetch REG_SIZE", 1)[0])
-    if not re.search(r"mask\s*==\s*usize::MAX\s*&&\s*ix_end\s*>\s*ix_start\s*\+\s*REG_SIZE\s*&&\s*lookahead\s*==\s*4", mf):
+    if not re.search(r"if\s+\w+\s*==\s*usize::MAX\s*&&\s*\w+\s*>\s*\w+\s*\+\s*REG_SIZE\s*&&\s*\w+\s*==\s*4\s*\{", mf):
         raise G.GenError("BulkStoreRangeOptMemFetch: entry condition changed")
     # H9
     for n in ("H9_BUCKET_BITS", "H9_BLOCK_BITS"):
